@@ -116,7 +116,7 @@ def generate(rng, npk, nlinks=None, payload="random", max_payload=None, sane_hea
             pf = fmt if fmt is not None else rng.choice([0, 2])
             f["data_format"] = pf
             slot = 16 if pf == 0 else 10
-            nw = rng.choice([0, 1, 2, 3, 5, 8, 20, min(max_payload // slot, 60)])
+            nw = rng.choice([0, 1, 2, 3, 5, 8, 20, min(max_payload // slot, 60)] + ([max_payload // slot, 520, 600] if max_payload >= 9000 else []))
             nw = min(nw, max_payload // slot)
             for _ in range(20):
                 words = random_its_words(rng, nw)
